@@ -154,8 +154,82 @@ Fixpoint cloop (s : state) (pre todo : list lrow) (c : cstate) (rep : list lkey)
 Definition set_log (s : state) (lg : list lrow) : state :=
   {| nodes := nodes s; ndels := ndels s; edels := edels s; edges := edges s; log := lg; now := now s |}.
 (* result: new state, reported keys (DailyLogsUpdate.room_dates -> DataModification) *)
-Definition compute (s : state) : state * list lkey :=
+Definition compute_v1 (s : state) : state * list lkey :=
   let '(lg, rep) := cloop s [] (log s) cinit [] in (set_log s lg, rep).
+
+(* ---- DailyLogsUpdate::compute as repaired by requests/C09-fix-6.diff (NOT applied to /repo yet) ----
+   the history of a room is chained over its days, and over the entities inside a day (the order
+   of get_room_log); the rows of every room that has a dirty day are read — before any update — from
+   the day before its first dirty day to its last day; a dirty day that stores nothing loses its
+   row; rows before the first dirty day keep their history, every row after it is chained again *)
+Definition same_room (l : lrow) (r : N) : bool := N.eqb (l_room l) r.
+Definition min_dirty_room (lg : list lrow) (r : N) : option Z :=
+  fold_left (fun a l => if same_room l r && l_dirty l then omin a (l_day l) else a) lg None.
+Definition max_before_room (lg : list lrow) (r : N) (m : Z) : option Z :=
+  fold_left (fun a l => if same_room l r && (l_day l <? m) then omax a (l_day l) else a) lg None.
+Definition selected2 (lg : list lrow) (l : lrow) : bool :=
+  match min_dirty_room lg (l_room l) with
+  | None => false
+  | Some m => match max_before_room lg (l_room l) m with
+              | Some p => p <=? l_day l
+              | None => m <=? l_day l
+              end
+  end.
+(* ORDER BY room_id, date, entity *)
+Definition chain_ltb (a b : lrow) : bool :=
+  N.ltb (l_room a) (l_room b) || (N.eqb (l_room a) (l_room b) &&
+  (Z.ltb (l_day a) (l_day b) || (Z.eqb (l_day a) (l_day b) && N.ltb (l_ent a) (l_ent b)))).
+Fixpoint chain_insert (r : lrow) (lg : list lrow) : list lrow :=
+  match lg with
+  | [] => [r]
+  | l :: t => if chain_ltb r l then r :: l :: t else l :: chain_insert r t
+  end.
+Definition chain_sort (lg : list lrow) : list lrow := fold_left (fun acc r => chain_insert r acc) lg [].
+Definition key_sort (lg : list lrow) : list lrow := fold_left (fun acc r => insert_sorted r acc) lg [].
+Fixpoint kinsert_k (k : lkey) (l : list lkey) : list lkey :=
+  match l with [] => [k] | h :: t => if key_ltb k h then k :: l else h :: kinsert_k k t end.
+Definition ksort_k (l : list lkey) : list lkey := fold_left (fun acc k => kinsert_k k acc) l [].
+
+Record c2state := { c2_room : option N; c2_mod : bool; c2_prev : option (option hterm * option hterm) }.
+Definition c2init : c2state := {| c2_room := None; c2_mod := false; c2_prev := None |}.
+Definition chain2 (prev : option (option hterm * option hterm)) (daily : option hterm) : option hterm :=
+  match prev with
+  | Some (Some ph, pd) => Some (HC ph pd)
+  | Some (None, _) => None
+  | None => daily
+  end.
+Definition c2enter (c : c2state) (l : lrow) : c2state :=
+  let c1 := if opt_is (c2_room c) (l_room l) then c else {| c2_room := Some (l_room l); c2_mod := false; c2_prev := None |} in
+  if l_dirty l then {| c2_room := c2_room c1; c2_mod := true; c2_prev := c2_prev c1 |} else c1.
+Definition c2next (c : c2state) (hist daily : option hterm) : c2state :=
+  {| c2_room := c2_room c; c2_mod := c2_mod c; c2_prev := Some (hist, daily) |}.
+Fixpoint loop2 (s : state) (c : c2state) (rows : list lrow) : list lrow * list lkey :=
+  match rows with
+  | [] => ([], [])
+  | l :: t =>
+      let c1 := c2enter c l in
+      if l_dirty l then
+        let cnt := content s (lrow_key l) in
+        match cnt with
+        | [] => let '(rs, rep) := loop2 s c1 t in (rs, lrow_key l :: rep)
+        | _ => let daily := Some (HD cnt) in
+               let hist := chain2 (c2_prev c1) daily in
+               let l' := {| l_room := l_room l; l_ent := l_ent l; l_day := l_day l; l_n := N.of_nat (length cnt);
+                            l_daily := daily; l_hist := hist; l_dirty := false |} in
+               let '(rs, rep) := loop2 s (c2next c1 hist daily) t in (l' :: rs, lrow_key l :: rep)
+        end
+      else
+        let hist := if c2_mod c1 then chain2 (c2_prev c1) (l_daily l) else l_hist l in
+        let '(rs, rep) := loop2 s (c2next c1 hist (l_daily l)) t in (set_hist l hist :: rs, rep)
+  end.
+Definition compute_v2 (s : state) : state * list lkey :=
+  let sel := filter (selected2 (log s)) (log s) in
+  let rest := filter (fun l => negb (selected2 (log s) l)) (log s) in
+  let '(rs, rep) := loop2 s c2init (chain_sort sel) in
+  (set_log s (key_sort (rest ++ rs)), ksort_k rep).
+
+(* THE SWITCH: compute_v1 = /repo as it is; compute_v2 = /repo with requests/C09-fix-6.diff *)
+Definition compute := compute_v1.
 
 (* ---- the writes ---- *)
 Record snode := { sn_id : N; sn_ent : N; sn_mdate : Z; sn_sig : N }.
